@@ -3017,6 +3017,13 @@ PPL::Grid::wrap_assign(const Variables_Set& vars,
       const Variable x(*i);
       // Find the frequency and a value for `x' in `gr'.
       if (!gr.frequency_no_check(x, f_n, f_d, v_n, v_d)) {
+        // `x' ranges over all the rationals in `gr', but it may be tied
+        // to other dimensions (a line of `gr' that is not parallel to
+        // the axis of `x'): if overflow wraps, `x' may be translated
+        // by any multiple of the wrap frequency independently of them.
+        if (o == OVERFLOW_WRAPS) {
+          add_grid_generator(parameter(wrap_frequency * x));
+        }
         continue;
       }
       if (f_n == 0) {
@@ -3040,9 +3047,13 @@ PPL::Grid::wrap_assign(const Variables_Set& vars,
           PPL_ASSERT(o == OVERFLOW_WRAPS);
           // The value v_n for `x' is wrapped modulo the 'wrap_frequency'.
           v_n %= wrap_frequency;
-          // `v_n' is the value closest to 0 and may be negative.
-          if (r == UNSIGNED && v_n < 0) {
+          // Here `-wrap_frequency < v_n < wrap_frequency':
+          // bring it into the range of the bounded integer type.
+          if (v_n < min_value) {
             v_n += wrap_frequency;
+          }
+          else if (v_n > max_value) {
+            v_n -= wrap_frequency;
           }
           unconstrain(x);
           add_constraint(x == v_n);
@@ -3060,31 +3071,46 @@ PPL::Grid::wrap_assign(const Variables_Set& vars,
       }
       if (f_d != 1) {
         // `x' has non-integral values, so add the integrality
-        // congruence for `x'.
+        // congruence for `x' and recompute the frequency and a value
+        // of `x' over its integral values only.
         add_congruence((x %= 0) / 1);
+        if (!minimize()) {
+          return;
+        }
+        if (!frequency_no_check(x, f_n, f_d, v_n, v_d)) {
+          continue;
+        }
+        PPL_ASSERT(f_n != 0 && f_d == 1 && v_d == 1);
       }
       if (o == OVERFLOW_WRAPS && f_n != wrap_frequency) {
         // We know that `x' is not a constant, so, if overflow wraps,
         // `x' may wrap to a value modulo the `wrap_frequency'.
         add_grid_generator(parameter(wrap_frequency * x));
       }
-      else if ((o == OVERFLOW_IMPOSSIBLE && 2*f_n >= wrap_frequency)
-               || (f_n == wrap_frequency)) {
-        // In these cases, `x' can only take a unique (ie constant)
-        // value.
-        if (r == UNSIGNED && v_n < 0) {
-          // `v_n' is the value closest to 0 and may be negative.
+      else if (o == OVERFLOW_WRAPS || f_n >= wrap_frequency) {
+        // In these cases, `x' can take at most one value in the range
+        // of the bounded integer type, namely
+        // `min_value + ((v_n - min_value) mod f_n)'.
+        v_n -= min_value;
+        v_n %= f_n;
+        if (v_n < 0) {
           v_n += f_n;
+        }
+        v_n += min_value;
+        if (v_n > max_value) {
+          // No value in range (only possible if overflow is impossible).
+          set_empty();
+          return;
         }
         unconstrain(x);
         add_constraint(x == v_n);
       }
       else {
         // If overflow is impossible but the grid frequency is less than
-        // half the wrap frequency, then there is more than one possible
+        // the wrap frequency, then there may be more than one possible
         // value for `x' in the range of the bounded integer type,
         // so the grid is unchanged.
-        PPL_ASSERT(o == OVERFLOW_IMPOSSIBLE && 2*f_n < wrap_frequency);
+        PPL_ASSERT(o == OVERFLOW_IMPOSSIBLE && f_n < wrap_frequency);
       }
     }
     return;
